@@ -1,4 +1,5 @@
 import Qhttp.Lemmas.C08Run
+import Qhttp.Lemmas.C08Other
 import Qhttp.Lemmas.HttpRender
 /-
   C08 helper lemmas: reading the response of a file request back with the strict reader `Http.parse`.
@@ -114,6 +115,47 @@ theorem comma_not_mem_rangeText (a b size : Nat) :
   have h := comma_not_mem_natDigits
   simp only [List.mem_append, not_or]
   exact ⟨⟨⟨⟨⟨by decide, h a⟩, by decide⟩, h b⟩, by decide⟩, h size⟩
+
+/-! ### responses completed inside the slot -/
+
+/-- the start line of such a response -/
+def ansStart (c : Int) (rsn : Bytes) : Bytes := Http.HTTP10 ++ intText c ++ [SP] ++ rsn
+
+theorem parse_answered (c : Int) (rsn : Bytes) (hdrs : HeaderMap) (body : Bytes) (hc : 0 ≤ c)
+    (hr : CR ∉ rsn) (hh : ∀ e ∈ hdrs, Http.EntryOk e) :
+    Http.parse (ansHead c rsn hdrs ++ body) =
+      some { start := ansStart c rsn, headers := hdrs, body := body } := by
+  have e : ansHead c rsn hdrs = ansStart c rsn ++ CRLF ++ Sock.headerLines hdrs ++ CRLF := rfl
+  rw [e]
+  refine Http.parse_render _ _ _ ?_ hh
+  unfold ansStart
+  rw [HB.intText_of_nonneg hc]
+  simp only [List.mem_append, not_or]
+  exact ⟨⟨⟨by decide, CR_not_mem_natDigits _⟩, by decide⟩, hr⟩
+
+theorem statusLine_ansStart {c : Int} (hc : 0 ≤ c) (rsn : Bytes) :
+    (Http.statusLine (ansStart c rsn)).map (·.code) = some c.natAbs := by
+  unfold ansStart
+  rw [Http.statusLine_intText hc]
+  rfl
+
+theorem entryOk_dirHdrs (body : Bytes) : ∀ e ∈ dirHdrs body, Http.EntryOk e := by
+  intro e he
+  simp only [dirHdrs, List.mem_cons, List.not_mem_nil, or_false] at he
+  rcases he with rfl | rfl
+  · exact entryOk_of keyOk_CL (CR_not_mem_natDigits _)
+  · exact entryOk_of keyOk_CT (by decide)
+
+theorem entryOk_nfHdrs (env : Env) : ∀ e ∈ nfHdrs env, Http.EntryOk e := by
+  intro e he
+  simp only [nfHdrs, List.mem_cons, List.not_mem_nil, or_false] at he
+  rcases he with rfl | rfl
+  · exact entryOk_of keyOk_CL (CR_not_mem_natDigits _)
+  · exact entryOk_of keyOk_CT (by decide)
+
+theorem valuesOf_CL_dirHdrs (body : Bytes) :
+    Http.valuesOf Sock.CONTENT_LENGTH (dirHdrs body) = [natDigits body.length] :=
+  valuesOf_CL_full _ _ (comma_not_mem_natDigits _)
 
 /-! ### `plan` looks at the Range header only -/
 
